@@ -171,6 +171,8 @@ def _idents(max_words, vocab):
 
 IDENTS3 = _idents(3, ('FOO', 'BAR', 'A'))      # 2..3 words, 24 identifiers
 IDENTS2 = _idents(2, ('FOO', 'BAR', 'BAZ', 'A'))  # 2 words, 8 identifiers
+IDENTSF = [i for i in IDENTS3 if i.startswith('FOO_')]   # 12 identifiers, first word FOO
+POOLS = {2: IDENTS2, 3: IDENTS3, 4: IDENTSF}
 
 
 def _word_prefix(a, b):
@@ -204,7 +206,7 @@ def _expected_names(idents):
 def enum_members(pool: int, n: int, i0: int, i1: int, i2: int, i3: int,
                  v0: int, v1: int, v2: int, v3: int,
                  p0: bool, p1: bool, p2: bool, p3: bool, bitfield: bool, typedef: bool):
-    pool_ids = IDENTS3 if pool == 3 else IDENTS2
+    pool_ids = POOLS[pool]
     idx = [i0, i1, i2, i3][:n]
     vals = [v0, v1, v2, v3][:n]
     priv = [p0, p1, p2, p3][:n]
